@@ -96,6 +96,11 @@ def materialise(t, args, sid, rng=None):
         p = "/".join(a["path"])
         if a["abs"] == "1":
             s = "{ROOT}/w" + ("/" + p if p else "")
+            # redundant spellings of an absolute path: "." and ".." elements, doubled and trailing separators
+            if rng is not None and a["dots"] != "1":
+                isdir = KIND_IS_DIR(a["path"])
+                s = rng.choice([s, s, s, "{ROOT}/w/." + ("/" + p if p else ""), "{ROOT}/w/../w" + ("/" + p if p else ""),
+                                "{ROOT}//w" + ("/" + p if p else "")] + ([s + "/", s + "/."] if isdir else []))
         else:
             s = posixpath.relpath("/r/" + p if p else "/r", "/r/" + "/".join(cwd) if cwd else "/r")
             if rng is not None and KIND_IS_DIR(a["path"]) and a["dots"] != "1":
